@@ -233,7 +233,7 @@ for version in ('1.0', '2.0'):
 import itertools          # noqa: E402
 from fractions import Fraction    # noqa: E402
 
-ALPHA = ['a', 'b', 'A', '1', ' ', '\t', '\n', ' ', ' ', '\U0001F600', 'é'[1], 'é', '%', '/', "'", '-']
+ALPHA = ['\x7f', '\x80', '~', 'a', 'b', 'A', '1', ' ', '\t', '\n', ' ', ' ', '\U0001F600', 'é'[1], 'é', '%', '/', "'", '-']
 
 
 def spec_translate(arg, m, t):
@@ -327,7 +327,7 @@ def bounded_strings(tier, seed):
             check('compare($a, $b)', (a > b) - (a < b), a=a, b=b)
             check('codepoint-equal($a, $b)', a == b, a=a, b=b)
     for d in ['0', '1', '10', '100', '1000', '-100', '0.5', '100.50', '10.0', '-0.001', '1E+2', '1E+3', '12345678901234567890.5',
-              '0.000001', '1000000', '-120', '1.10', '20', '3E+1']:
+              '0.000001', '1000000', '-120', '1.10', '20', '3E+1', '-0', '-0.0', '-0.00', '0.0', '-0E+2', '-0.10']:
         seen.add(('decimal-string', d))
         check('string($d)', spec_decimal_string(decimal.Decimal(d)), d=decimal.Decimal(d))
         check('concat($d, "px")', spec_decimal_string(decimal.Decimal(d)) + 'px', d=decimal.Decimal(d))
@@ -339,11 +339,107 @@ def bounded_strings(tier, seed):
             'rule': 'distinct = (function, lengths / character-set class of the arguments)'}
 
 
-BOUNDED = [Bounded('string_functions_small_scope', bounded_strings)]
+def xpath10_strings_vs_libxml2(tier, seed):
+    """The XPath 1.0 string functions with the XPath 1.0 parser against libxml2 (lxml) on the same document: every argument form the 1.0 grammar
+    allows (string literals, node-sets, numbers incl. NaN/Infinity, booleans: 1.0 converts arguments with string()/number())."""
+    import lxml.etree as LX
+    import xml.etree.ElementTree as ET
+    from elementpath import select as ep_select, XPath1Parser
+    src = '<r><a> x  y </a><n>12.50</n><e/><u>\u00e9\U0001F600x</u></r>'
+    r, lx = ET.XML(src), LX.XML(src)
+    strs = ["''", "'12345'", "'abc'", "' a  b '", "u", "a", "n", "e", "zz", "'a'", "'1'", "'ab'"]
+    nums = ['0', '1', '2', '1.5', '2.5', '-1', '0.5', '1 div 0', '-1 div 0', '0 div 0', '3', '100', "'2'", "'x'", 'true()', 'n', '1.4999', '-0.5']
+    exprs = []
+    for s_ in strs:
+        exprs += [f'string-length({s_})', f'normalize-space({s_})', f'string({s_})', f"concat({s_}, '|', {s_})", f"translate({s_}, 'abx', 'B')"]
+        for t in strs:
+            exprs += [f'contains({s_}, {t})', f'starts-with({s_}, {t})', f'substring-before({s_}, {t})', f'substring-after({s_}, {t})', f'concat({s_}, {t})']
+        for a in nums:
+            exprs.append(f'substring({s_}, {a})')
+            for b in nums[:12]:
+                exprs.append(f'substring({s_}, {a}, {b})')
+    # numbers as arguments of string functions: only values whose 1.0 string form is unambiguous (no exponent form in either implementation)
+    for a in nums + ['1.0', '-0', '12345.678', '-0.0', '.5', '5.', '0.25', '1000000', '-12.5', 'true()', 'false()']:
+        exprs += [f'string({a})', f"concat({a}, '')", f'string-length({a})', f'string-length(string({a}))', f"starts-with({a}, '1')", f"contains({a}, 'n')"]
+    fams, n, seen = {}, 0, set()
+    for e in exprs:
+        n += 1
+        fname = e.split('(')[0]
+        got = run_native(lambda: ep_select(r, e, parser=XPath1Parser))
+        want = lx.xpath(e)
+        seen.add((fname, e.count(','), 'div' in e, "'" in e))
+        if isinstance(want, float) and got[0] == 'return' and isinstance(got[1], (int, float)) and not isinstance(got[1], bool) and float(got[1]) == want:
+            continue
+        if got != ('return', want):
+            if got[0] == 'raise' and 'FORG0006' in str(got[1]) and fname == 'substring':
+                key = 'XPath 1.0: substring() rejects a position/length argument that is not a number (1.0 converts it with number())'
+            elif isinstance(want, str) and 'Infinity' in want:
+                key = "XPath 1.0: the string value of an infinite number is 'INF' / '-INF' (XPath 1.0 and libxml2: 'Infinity' / '-Infinity')"
+            elif 'div 0' in e and fname in ('string-length', 'contains', 'starts-with'):
+                key = "XPath 1.0: the string value of an infinite number is 'INF' / '-INF' (XPath 1.0 and libxml2: 'Infinity' / '-Infinity')"
+            else:
+                key = f'XPath 1.0: {fname}() differs from libxml2'
+            fams.setdefault(key, []).append({'expr': e, 'elementpath': repr(got)[:90], 'libxml2': repr(want)[:60]})
+    fails = [{'key': k, 'items': it[:4], 'count': len(it), 'what': f'{k}: e.g. {it[0]}', 'expr': it[0]['expr']} for k, it in fams.items()]
+    return {'evaluations': n, 'distinct': len(seen), 'failures': fails, 'n_failures': len(fails),
+            'scope': f'{len(exprs)} calls of string-length, normalize-space, string, concat, translate, contains, starts-with, substring-before, substring-after, substring '
+                     f'(2 and 3 arguments) over {len(strs)} string operands (literals, node-sets incl. empty and non-BMP content) and {len(nums)} numeric operands '
+                     '(fractions, NaN, infinities, strings, booleans, nodes) with the XPath 1.0 parser; oracle: libxml2 on the same document',
+            'rule': 'distinct = (function, arity, operand classes)'}
+
+
+def collation_compare(tier, seed):
+    """fn:compare / contains / starts-with / ends-with / substring-before / substring-after with the codepoint and the html-ascii-case-insensitive
+    collations against their definitions (HTML5: only A-Z and a-z are folded)."""
+    CI = 'http://www.w3.org/2005/xpath-functions/collation/html-ascii-case-insensitive'
+    CP = 'http://www.w3.org/2005/xpath-functions/collation/codepoint'
+    CB = 'http://www.w3.org/2010/09/qt-fots-catalog/collation/caseblind'
+    fold = lambda t: ''.join(chr(ord(c) + 32) if 'A' <= c <= 'Z' else c for c in t)      # noqa
+    words = ['', 'a', 'A', 'b', 'B', 'apple', 'Apple', 'Banana', 'banana', 'aB', 'Ab', 'ab', 'Strasse', 'Stra\u00dfe', 'STRASSE', '\u00e9', '\u00c9', 'k', '\u212a',
+             'i', 'I', '\u0130', 'z', 'Z', '[', '_', '{']
+    fams, n, seen = {}, 0, set()
+
+    def chk(expr, want, key, **v):
+        nonlocal n
+        n += 1
+        got = eval_native('3.1', expr, **v)
+        if got != ('return', want):
+            fams.setdefault(key, []).append({'expr': expr, 'vars': repr(v), 'got': repr(got)[:80], 'expected': repr(want)})
+    for a, b in itertools.product(words, repeat=2):
+        seen.add((a.isascii(), b.isascii(), fold(a) == fold(b)))
+        fa, fb = fold(a), fold(b)
+        chk('compare($a, $b, $c)', (fa > fb) - (fa < fb), 'compare() with the html-ascii-case-insensitive collation', a=a, b=b, c=CI)
+        chk('compare($a, $b, $c)', (a > b) - (a < b), 'compare() with the codepoint collation', a=a, b=b, c=CP)
+        chk('compare($a, $b)', (a > b) - (a < b), 'compare() with the default collation', a=a, b=b)
+        chk('contains($a, $b, $c)', fb in fa, 'contains() with the html-ascii-case-insensitive collation', a=a, b=b, c=CI)
+        chk('starts-with($a, $b, $c)', fa.startswith(fb), 'starts-with() with the html-ascii-case-insensitive collation', a=a, b=b, c=CI)
+        chk('ends-with($a, $b, $c)', fa.endswith(fb), 'ends-with() with the html-ascii-case-insensitive collation', a=a, b=b, c=CI)
+        ca, cb = a.casefold(), b.casefold()
+        chk('compare($a, $b, $c)', (ca > cb) - (ca < cb), 'compare() with the caseblind collation of the QT3 test suite (full case folding)', a=a, b=b, c=CB)
+        chk('contains($a, $b, $c)', cb in ca, 'contains() with the caseblind collation of the QT3 test suite (full case folding)', a=a, b=b, c=CB)
+        chk('ends-with($a, $b)', a.endswith(b), 'ends-with() with the default collation', a=a, b=b)
+        chk('starts-with($a, $b)', a.startswith(b), 'starts-with() with the default collation', a=a, b=b)
+        chk('contains($a, $b, $c)', b in a, 'contains() with the codepoint collation', a=a, b=b, c=CP)
+    fails = [{'key': k, 'items': it[:4], 'count': len(it), 'what': f'{k}: e.g. {it[0]}', 'expr': it[0]['expr']} for k, it in fams.items()]
+    return {'evaluations': n, 'distinct': len(seen), 'failures': fails, 'n_failures': len(fails),
+            'scope': f'{len(words)}^2 pairs of words (ASCII case variants, sharp s, Kelvin sign, dotted I, characters between Z and a) x compare/contains/starts-with/ends-with '
+                     'with the codepoint, default and html-ascii-case-insensitive collations; oracle: code point order after folding A-Z only',
+            'rule': 'distinct = (ASCII-ness of the operands, equal after folding)'}
+
+
+def _replay_c09(f):
+    for fn_ in (xpath10_strings_vs_libxml2, collation_compare):
+        r = fn_('quick', 0)
+        if any(x['key'] == f.get('key') for x in r['failures']):
+            return False
+    return True
+
+
+BOUNDED = [Bounded('string_functions_small_scope', bounded_strings), Bounded('xpath10_string_functions_vs_libxml2', xpath10_strings_vs_libxml2, _replay_c09),
+           Bounded('collation_aware_functions', collation_compare, _replay_c09)]
 
 NOT_DECIDED = [
     'upper-case/lower-case (Unicode case tables live in CPython)',
-    'agreement with libxml2 (external oracle)',
     'locale-dependent collations (strcoll/strxfrm in libc)',
     'translate, normalize-space, URI escaping, compare, codepoint functions: bounded stand-in only',
 ]
